@@ -25,16 +25,69 @@ from .c16 import SUPER, htok, ws
 from .c17 import sym_bases
 from .convcommon import ConvContext, ftok
 
-LEVEL_TEXT = ("TODO")
-LEVEL_NOTE = ("TODO")
+LEVEL_TEXT = ("Lean: for EVERY integer n != 1, from_superscript(superscript(n)) = n, and int(str(n)) = n for the ^n spelling "
+              "(superscript_round_trip, caret_round_trip: both exponent spellings carry the same integer; an omitted exponent is 1). "
+              "In every state reachable from a canonical base state and for every unit whose prefix can be pushed into its first factor, "
+              "the expression the parser rebuilds from the terms unit_str renders (resolve, raise, multiply left to right, divide by One) "
+              "evaluates - after ANY further history - to the very same object (terms_denote, rendered_terms_are_the_unit, via the C02 "
+              "canonical-form theory); instantiated at the shipped registries for every shipped unit (shipped_units_render_to_themselves, "
+              "with init_base_factors / init_terms_ok by decide +kernel). The a/b vs negative exponent, * vs juxtaposition and ordering "
+              "spellings are C02's group laws. Per run on regenerated data: every registered symbol is exactly one SYMBOL token "
+              "(symbols_lex), a kernel-evaluated build/str/lex/LR-parse/transform round trip over a family (family_round_trip, a test), "
+              "and the model's complete collision table (all ~5000 prefix x symbol pairs, compiled driver) equals the real "
+              "resolve_symbol's. Tied to the code by differential execution and the implementation oracle over the property's space.")
+LEVEL_NOTE = ("Which concrete symbol a rendered term spells depends on the whole symbol table: no unbounded theorem, but the exhaustive "
+              "per-run table comparison and the exhaustive prefix x symbol sweep on the implementation. The character-level lexing of "
+              "rendered text is checked by kernel evaluation on a family and by correspondence, not proved for all units. str() of "
+              "float magnitudes (CPython repr) is not modelled; the harness passes Python's own text to both sides. Catalogued "
+              "violations of the pinned code (known findings): unpushable prefix ('1000 m²'), symbol-less pushed prefix ('10⁴m'), the 7 "
+              "symbol collisions, cross-base float prefixes.")
 TECHNIQUE = "Lean 4 theorems (superscript round trip for every integer; the formatter's term list denotes the unit, by the C02 canonical-form theory) + decide +kernel collision table and family round trip on regenerated data + differential correspondence + implementation oracle"
 
-THEOREMS = []
-LEAN_TARGETS = ["Props.C17"]
+THEOREMS = [
+    "Measured.C13.superscript_round_trip", "Measured.C13.caret_round_trip", "Measured.C13.intOfChars_repr",
+    "Measured.terms_denote", "Measured.C13.rendered_terms_are_the_unit",
+    "Measured.C02.div_eq_mul_inv", "Measured.C02.mul_comm", "Measured.C02.eval_canonical",
+    "Measured.Obligations.symbols_lex", "Measured.Obligations.init_base_factors", "Measured.Obligations.init_terms_ok",
+    "Measured.Obligations.shipped_units_render_to_themselves", "Measured.Obligations.family_round_trip",
+]
+LEAN_TARGETS = ["Props.C13", "Obligations.C13"]
+THOROUGH_TARGETS = ["ObligationsFull.C13Full"]
 QUICK = {"chunks": 8, "ops": 1500}
 THOROUGH = {"chunks": 16, "ops": 12000}
 RULE = ("(unit expression, spelling) and (magnitude, unit); non-trivial = the unit has a prefix or more than one factor or an exponent "
         "other than 1; distinct by text")
+
+
+def extra_checks(tier, seed, build_ok):
+    """Table-level correspondence: the model's complete collision list (compiled driver, all
+    same-base prefix x symbol pairs) against the real Unit.resolve_symbol in a fresh interpreter;
+    every colliding pair that is not the deliberate, equal-valued kg alias is a C13 violation
+    (matched against the catalogued pairs)."""
+    import json
+    import os
+    import subprocess
+    verif = os.path.dirname(os.path.dirname(os.path.dirname(os.path.abspath(__file__))))
+    out = subprocess.run(["/venv/bin/python", os.path.join(verif, "translate", "gen_symbols.py"), "--report"],
+                         stdout=subprocess.PIPE, stderr=subprocess.PIPE, text=True, timeout=600)
+    if out.returncode != 0:
+        return {"problems": [("translate", "gen_symbols --report failed: " + out.stderr[-400:])]}
+    rep = json.loads(out.stdout.strip().splitlines()[-1])
+    problems, failures = [], []
+    drv = os.path.join(verif, "lean", ".lake", "build", "bin", "driver")
+    if os.path.exists(drv):
+        d = subprocess.run([drv], input="X\tcollisions\n", stdout=subprocess.PIPE, text=True, timeout=600)
+        model = [x for x in d.stdout.strip().split("\t")[-1].split(",") if x] if d.stdout.startswith("ok\ts") else None
+        if model is None or sorted(model) != sorted(rep["collisions"]):
+            problems.append(("correspondence", "collision table: implementation %s vs model %s" % (sorted(rep["collisions"]), model)))
+    for pair in rep["collisions"]:
+        if pair == "k+g":
+            continue            # `kg` is the kilogram: deliberate, equal in value (checked by the sweep's oracle)
+        failures.append({"kind": "roundtrip-different", "class": "symbol-collision", "pair": pair,
+                         "detail": "prefix symbol + unit symbol resolves to another unit (exhaustive table)"})
+    return {"failures": failures, "problems": problems, "evaluations": rep["pairs"], "oracle_checks": rep["pairs"],
+            "distinct_nontrivial": rep["pairs"], "exhaustive": True,
+            "info": {"prefix_symbol_pairs": rep["pairs"], "collisions": rep["collisions"]}}
 
 
 class Context(ConvContext):
